@@ -32,6 +32,14 @@ def load_corpus() -> List[dict]:
         ns['M'].append(dict(id=id, prop=prop, file=file, old=old, new=new, expect=expect, names=names, note=note))
 
     ns['m'] = m
+
+    def pm(id, prop, patch, expect='fire', names=None, note=''):
+        """Entry whose edit is a unified diff (relative to the repository root) instead of a text replacement."""
+        ns['M'].append(dict(id=id, prop=prop, patch=os.path.join(os.path.dirname(CORPUS), patch), expect=expect, names=names, note=note,
+                            file=None, old=None, new=None))
+
+    ns['pm'] = pm
+    ns['ROOT'] = os.path.dirname(CORPUS)
     with open(CORPUS) as fh:
         exec(compile(fh.read(), CORPUS, 'exec'), ns)
     return ns['M']
@@ -45,22 +53,30 @@ def _run_one(entry: dict, repo: str) -> dict:
     try:
         dst = os.path.join(tmp, 'src', 'plumpy')
         shutil.copytree(os.path.join(repo, 'src', 'plumpy'), dst)
-        path = os.path.join(tmp, entry['file'])
-        with open(path) as fh:
-            src = fh.read()
-        if src.count(entry['old']) != 1:
-            res['outcome'] = 'STALE'
-            res['detail'] = f"old text occurs {src.count(entry['old'])} times in {entry['file']}"
-            return res
-        new_src = src.replace(entry['old'], entry['new'])
-        try:
-            compile(new_src, path, 'exec')
-        except SyntaxError as exc:
-            res['outcome'] = 'STALE'
-            res['detail'] = f'edited file does not compile: {exc}'
-            return res
-        with open(path, 'w') as fh:
-            fh.write(new_src)
+        if entry.get('patch'):
+            import subprocess
+            p = subprocess.run(['patch', '-p1', '-d', tmp, '-i', entry['patch'], '--no-backup-if-mismatch', '-s', '-F', '0'], capture_output=True, text=True)
+            if p.returncode != 0:
+                res['outcome'] = 'STALE'
+                res['detail'] = 'patch does not apply: ' + (p.stdout + p.stderr).strip()[-300:]
+                return res
+        else:
+            path = os.path.join(tmp, entry['file'])
+            with open(path) as fh:
+                src = fh.read()
+            if src.count(entry['old']) != 1:
+                res['outcome'] = 'STALE'
+                res['detail'] = f"old text occurs {src.count(entry['old'])} times in {entry['file']}"
+                return res
+            new_src = src.replace(entry['old'], entry['new'])
+            try:
+                compile(new_src, path, 'exec')
+            except SyntaxError as exc:
+                res['outcome'] = 'STALE'
+                res['detail'] = f'edited file does not compile: {exc}'
+                return res
+            with open(path, 'w') as fh:
+                fh.write(new_src)
         buf = io.StringIO()
         os.environ['PLUMPY_SA_NO_EVIDENCE'] = '1'
         try:
